@@ -169,9 +169,11 @@ Inductive input :=
                                                 transaction rolled back, the committed store kept *)
 | IWipe                                      (* this account reinstalls: empty store *)
 | INotify (c m : N)                          (* identity-change `encrypt` notification m about contact c *)
-| IKill (k : kin) (n : N).                   (* the process is KILLED while it handles input k, after the n-th commit
+| IKill (k : kin) (n : N)                    (* the process is KILLED while it handles input k, after the n-th commit
                                                 of that handling (n = 0: before the first), and a new process starts:
                                                 the store is left in the durable state it had at that moment *)
+| IReadFault (k : kin)                       (* input k arrives while the identities table cannot be READ (database
+                                                locked past the busy timeout): the trust decision has no answer *).
 
 Inductive output :=
 | OGetKeys (iq : N) (c : N)
@@ -390,6 +392,23 @@ Definition on_notify (a : acct) (c m : N) : acct * list output :=
 Definition kin_input (k : kin) : input :=
   match k with KiSend c m => IAppSend c m | KiKeys iq res => IKeys iq res | KiMsg c m e => IMsg c m e end.
 
+(* The identities table cannot be read while input k is handled.  Every lookup of that table (the trust check first)
+   precedes every store write of the handling, and the code as it is lets sqlite3.OperationalError leave the stack:
+   the handling ABORTS - no output, no table touched; only what was consumed before the store was asked is gone: the
+   answered key request has left the iq registry. *)
+Definition read_fault (a : acct) (k : kin) : acct :=
+  match k with
+  | KiKeys iq _ => match lookup iq (a_iqs a) with
+                   | Some _ => set_iqs a (remove_key iq (a_iqs a)) (a_iqctr a)
+                   | None => a
+                   end
+  | _ => a
+  end.
+
+(* variant, shape of seeded defect C17-11: the failed lookup is read as "no row" = contact never seen = trusted; the
+   handling goes on with the tables as they are - for the trust decision the contact's row is not there *)
+Definition trusted_when_unreadable (ids : list (N * N)) (c k : N) : bool := true.
+
 (* handling of every input but a kill *)
 Definition step_nk (a : acct) (i : input) : acct * list output :=
   match i with
@@ -405,6 +424,7 @@ Definition step_nk (a : acct) (i : input) : acct * list output :=
   | IWipe => (mkA (a_auto a) [] [] [] [] [] [] [] [] [] (a_iqctr a) (a_log a), [])
   | INotify c m => on_notify a c m
   | IKill _ _ => (a, [])
+  | IReadFault k => (read_fault a k, [])
   end.
 
 (* a new process over committed tables d: nothing volatile *)
